@@ -33,6 +33,8 @@ FIXED_DOCS = [
     '<r>x<a/>y<a>z</a><!--1--><!--2--><?p1 a?><?p2 b?></r>',
     '<r xmlns="d" xmlns:p="u"><a k="1">t<b/></a><x xmlns=""><a/></x><p:a/></r>',
     '<r xmlns="u" xmlns:p="u"><a k="1" p:k="2"/><p:a k=""/></r>',
+    # a default namespace with un-namespaced islands: what an un-prefixed name addresses depends on `namespaces`
+    '<r xmlns="d" xmlns:p="u"><a k="1"/><n xmlns=""><a/><b k="1"><a k="2"/></b></n><b><a/><c xmlns=""><a k="1"/></c></b></r>',
 ]
 
 
@@ -47,8 +49,8 @@ def gen_doc(rng):
                 decl += ' xmlns="%s"' % D_NS
             if rng.random() < 0.1:
                 decl = ' xmlns:p="%s" xmlns="%s"' % (P_NS, P_NS)
-        elif rng.random() < 0.08:
-            decl = ' xmlns="%s"' % rng.choice(["", D_NS, "e"])
+        elif rng.random() < 0.12:
+            decl = ' xmlns="%s"' % rng.choice(["", "", D_NS, "e"])
         attrs = ""
         if rng.random() < 0.45:
             attrs += ' k="%s"' % rng.choice(["1", "2", "x", "", "1"])
@@ -130,6 +132,14 @@ def gen_step(rng, wild):
         return ("parent", "node()", [], "..")
     ax = rng.choice(AXES + ["child"] * 8)
     t = rng.choice(TESTS)
+    if q < .25:
+        # stacked predicates: an earlier one removes candidates, a later one looks at the context size / position
+        first = rng.choice(["@k", "@k='1'", "not(@k='1')", "@j or @k", "position()>1", "not(@j)" if wild else "@k"])
+        later = rng.choice(["last()", "position()=last()", "position()<last()", "position()!=last()", "last()>1",
+                            "not(position()=last())", "1", "2"])
+        preds = [first, later] if rng.random() < .7 else [first, rng.choice(["@j", "position()>1", "@k"]), later]
+        t = rng.choice(["a", "b", "*", "*", "node()", t])
+        return (ax, t, preds, None)
     preds = [gen_pred(rng, 0, wild) for _ in range(rng.choice([0, 0, 0, 1, 1, 2]))]
     return (ax, t, preds, None)
 
@@ -320,7 +330,7 @@ def run(ctx, args):
                 paths = gen_expr(rng, wild)
                 e = render_delb(paths)
                 pos, node, _ = rng.choice(tree.nodes)
-                um = rng.choice([None, None, {"p": P_NS}, {"p": P_NS}, {"p": P_NS, "": D_NS}, {"p": D_NS}])
+                um = rng.choice([None, None, {"p": P_NS}, {"p": P_NS}, {"p": P_NS, "": D_NS}, {"p": D_NS}, {}, {}])
                 try:
                     from _delb.xpath import parse
                     ast = parse(e)
@@ -473,7 +483,9 @@ def css(ctx, docs):
             if r < .3:
                 sel = sel + rng.choice([" ", " > ", " ~ ", ", "]) + rng.choice(CSS_ATOMS)
             pos, node = rng.choice(tags)
-            um = {"p": P_NS}
+            um = rng.choice([{"p": P_NS}, {"p": P_NS}, {}, None])
+            if um is not None and "p" not in um and "p|" in sel:
+                um = {"p": P_NS}
             try:
                 xp = _css_to_xpath(sel)
                 ast = parse(xp)
